@@ -137,11 +137,11 @@ func init() {
 	// an idle 16-core sandbox does in about 45 s (quick) and 6-8 min (thorough). QuickSec/ThoroughSec only cap the
 	// wall clock: a slower machine explores a prefix and says so.
 	for id, n := range map[string][2]int{
-		"C01": {120000, 960000}, "C02": {100000, 800000}, "C04": {120000, 960000},
-		"C05": {4000, 32000}, "C06": {4000, 32000}, "C07": {3000, 24000}, "C08": {3000, 24000}, "C09": {4000, 32000},
-		"C10": {2500, 20000}, "C11": {2000, 16000}, "C20": {3000, 24000},
-		"C12": {8000, 2000}, "C13": {3000, 24000}, "C14": {6000, 1500},
-		"C15": {8000, 64000}, "C16": {6000, 48000}, "C17": {6000, 48000}, "C18": {5000, 40000}, "C19": {7000, 56000},
+		"C01": {160000, 1280000}, "C02": {160000, 1280000}, "C04": {200000, 1600000},
+		"C05": {4500, 36000}, "C06": {5000, 40000}, "C07": {4400, 35200}, "C08": {6500, 52000}, "C09": {6500, 52000},
+		"C10": {5200, 41600}, "C11": {6000, 48000}, "C20": {4800, 38400},
+		"C12": {18000, 4000}, "C13": {5500, 44000}, "C14": {7500, 700}, // thorough C12/C14: base runs, each swept over its fault points
+		"C15": {9500, 76000}, "C16": {4000, 32000}, "C17": {5500, 44000}, "C18": {3900, 31200}, "C19": {7000, 56000},
 	} {
 		props[id].QuickRuns, props[id].ThoroughRuns = n[0], n[1]
 		props[id].QuickSec, props[id].ThoroughSec = 300, 3600
